@@ -7,6 +7,8 @@ package main
 // writes /verif/evidence/<id>.json and prints VIOLATION / KNOWN-FINDING lines.
 
 import (
+	"math"
+	"math/big"
 	"encoding/json"
 	"flag"
 	"fmt"
@@ -299,6 +301,15 @@ func cmdCheck(args []string) int {
 			}
 		}
 
+		// distribution harnesses: exact outcome probabilities per class
+		if hs.Kind == "distribution" {
+			v, inc, probs := analyseDistribution(*prop, &hs, res, params, nb)
+			violations += v
+			inconclusive += inc
+			problems = append(problems, probs...)
+			rep.Reproduced += v
+		}
+
 		// candidates: replay natively, one per distinct (status,label/site)
 		seen := map[string]int{}
 		for _, c := range res.Candidates {
@@ -472,4 +483,176 @@ func samplePath(h string, p *interp.PathResult) map[string]interface{} {
 		"harness": h, "status": p.Status.String(), "msg": firstLines(p.Msg, 1), "decisions": len(p.Trace),
 		"pc_conjuncts": p.PCSize, "ssa_steps": p.Steps, "one_model": ins, "reach": p.Reached,
 	}
+}
+
+
+func obsValue(obs []string, tag string) (string, bool) {
+	for _, o := range obs {
+		if strings.HasPrefix(o, tag+"=") {
+			return o[len(tag)+1:], true
+		}
+	}
+	return "", false
+}
+
+// analyseDistribution: every path carries its exact probability; per class
+// (configuration) the masses must add up to 1 (all paths are boxes, none is
+// missing), every expected outcome must have a non-zero probability and all
+// outcomes the same probability. Violations are confirmed natively by running
+// the harness under many seeds and comparing the empirical frequencies with the
+// exact distribution computed by the engine.
+func analyseDistribution(prop string, hs *HarnessSpec, res *interp.ExploreResult, params map[string]int, nb *nativeBuilder) (violations, inconclusive int, problems []string) {
+	type cls struct {
+		mass   *big.Rat
+		out    map[string]*big.Rat
+		expect int
+		sample *interp.PathResult
+	}
+	classes := map[string]*cls{}
+	for _, p := range res.Weighted {
+		c, ok1 := obsValue(p.Observe, "class")
+		o, ok2 := obsValue(p.Observe, "outcome")
+		if !ok1 || !ok2 {
+			problems = append(problems, hs.Name+": path without class/outcome observation")
+			inconclusive++
+			continue
+		}
+		k := classes[c]
+		if k == nil {
+			k = &cls{mass: new(big.Rat), out: map[string]*big.Rat{}, sample: p}
+			classes[c] = k
+		}
+		w, _ := new(big.Rat).SetString(p.Weight)
+		k.mass.Add(k.mass, w)
+		if k.out[o] == nil {
+			k.out[o] = new(big.Rat)
+		}
+		k.out[o].Add(k.out[o], w)
+		if e, ok := obsValue(p.Observe, "expect"); ok {
+			k.expect, _ = strconv.Atoi(e)
+		}
+	}
+	if len(classes) == 0 {
+		problems = append(problems, hs.Name+": no weighted path")
+		inconclusive++
+	}
+	one := big.NewRat(1, 1)
+	var names []string
+	for c := range classes {
+		names = append(names, c)
+	}
+	sort.Strings(names)
+	nviol := 0
+	for _, c := range names {
+		k := classes[c]
+		if k.mass.Cmp(one) != 0 {
+			problems = append(problems, fmt.Sprintf("%s: class %s: path probabilities add up to %s, not 1 (a path condition is not a box over the draws, or paths are missing)", hs.Name, c, k.mass.RatString()))
+			inconclusive++
+			continue
+		}
+		what := ""
+		if k.expect > 0 && len(k.out) != k.expect {
+			what = fmt.Sprintf("%d of %d possible outcomes have probability 0", k.expect-len(k.out), k.expect)
+		} else {
+			var first *big.Rat
+			for _, pr := range k.out {
+				if first == nil {
+					first = pr
+				} else if pr.Cmp(first) != 0 {
+					what = "outcomes do not have the same probability"
+				}
+			}
+		}
+		if what == "" {
+			continue
+		}
+		if nviol >= 3 {
+			continue
+		}
+		nviol++
+		dist := map[string]string{}
+		for o, pr := range k.out {
+			dist[o] = pr.RatString()
+		}
+		rf := &ReplayFile{Property: prop, Harness: hs.Func, InCmd: hs.InCmd, Inputs: k.sample.Inputs, Params: params,
+			Expect: "distribution", Label: what, Msg: "class " + c + ": " + what, Dist: dist, Class: c, NExpect: k.expect}
+		pth, err := writeReplay("/verif/replays", rf)
+		if err != nil {
+			problems = append(problems, err.Error())
+			inconclusive++
+			continue
+		}
+		ok, detail := confirmDistribution(nb, pth, rf)
+		if ok {
+			violations++
+			fmt.Printf("VIOLATION property=%s replay=%s\n", prop, pth)
+			fmt.Printf("  harness=%s kind=distribution: class %s: %s (%s)\n", hs.Name, c, what, detail)
+		} else {
+			fmt.Printf("UNCONFIRMED property=%s replay=%s engine=distribution native=%s\n", prop, pth, detail)
+			problems = append(problems, fmt.Sprintf("%s: distribution violation in class %s not confirmed natively (%s)", hs.Name, c, detail))
+			inconclusive++
+		}
+	}
+	return
+}
+
+// confirmDistribution runs the harness natively under 30000 seeds and checks that
+// the empirical frequencies agree with the exact distribution of the engine
+// (within 6 sigma each) while disagreeing with the uniform one.
+func confirmDistribution(nb *nativeBuilder, path string, rf *ReplayFile) (bool, string) {
+	const R = 30000
+	nres, err := nb.runRepeat([]string{path}, rf.InCmd, false, 120*time.Second, R)
+	if err != nil {
+		return false, err.Error()
+	}
+	nr := nres[path]
+	if nr == nil || nr.Dist == nil {
+		return false, "no native distribution"
+	}
+	n := rf.NExpect
+	if n == 0 {
+		n = len(rf.Dist)
+	}
+	agree := true
+	nonUniform := false
+	total := 0
+	for _, c := range nr.Dist {
+		total += c
+	}
+	if total < R/2 {
+		return false, fmt.Sprintf("only %d native runs produced an outcome", total)
+	}
+	seen := map[string]bool{}
+	check := func(o string, p float64) {
+		emp := float64(nr.Dist[o]) / float64(total)
+		sd := math.Sqrt(p*(1-p)/float64(total)) + 1e-9
+		if math.Abs(emp-p) > 6*sd+1e-3 {
+			agree = false
+		}
+		u := 1.0 / float64(n)
+		if math.Abs(emp-u) > 6*math.Sqrt(u*(1-u)/float64(total)) {
+			nonUniform = true
+		}
+	}
+	for o, ps := range rf.Dist {
+		r, _ := new(big.Rat).SetString(ps)
+		f, _ := r.Float64()
+		check(o, f)
+		seen[o] = true
+	}
+	for o := range nr.Dist {
+		if !seen[o] {
+			check(o, 0)
+		}
+	}
+	if len(rf.Dist) < n {
+		nonUniform = nonUniform || len(nr.Dist) < n
+	}
+	if os.Getenv("GOSX_DEBUG_DIST") != "" {
+		fmt.Fprintf(os.Stderr, "native counts: %v\n", nr.Dist)
+	}
+	if agree && nonUniform {
+		return true, fmt.Sprintf("%d native runs agree with the exact distribution and reject uniformity", total)
+	}
+	return false, fmt.Sprintf("native frequencies: agree=%v nonuniform=%v over %d runs", agree, nonUniform, total)
 }
